@@ -3179,7 +3179,23 @@ impl Collection {
                         .btree_index_value(index, &doc)
                         .unwrap_or(Cow::Owned(FieldValue::Null));
 
-                    index.update(id, &old_value, &new_value, now_ms)?;
+                    if let Err(err) = index.update(id, &old_value, &new_value, now_ms) {
+                        // `BTree::update` inserts the new keys before it removes
+                        // the old ones, and an array insert that fails at one
+                        // value (a concurrent writer took it after the
+                        // pre-check) keeps the values it applied before that
+                        // one. This index is not in `btree_updated`, so the
+                        // rollback closure below would skip it and those
+                        // postings would outlive the rejected update, making
+                        // the values unusable for every other document.
+                        // Nothing of the old value was removed yet: the
+                        // reverse update re-inserts the old keys (idempotent,
+                        // this id still owns them) and removes the new-only
+                        // keys, which restores this index. It cannot apply
+                        // anything when the forward call applied nothing.
+                        let _ = index.update(id, &new_value, &old_value, now_ms);
+                        return Err(err);
+                    }
                     btree_updated.insert(index, (old_value, new_value));
                 }
             }
